@@ -14,6 +14,7 @@ mod c06wrap;
 mod c07;
 mod c08;
 mod c15;
+mod c20;
 mod c09;
 mod c10;
 mod c10conn;
@@ -36,7 +37,23 @@ fn tier(s: Option<&String>) -> Tier {
     }
 }
 
+struct StderrLog;
+impl log::Log for StderrLog {
+    fn enabled(&self, _: &log::Metadata) -> bool {
+        true
+    }
+    fn log(&self, r: &log::Record) {
+        eprintln!("    [{:?} step {} {} {}] {}", ntex_util::time::vclock::elapsed(), crate::simnet::step(), r.level(), r.target(), r.args());
+    }
+    fn flush(&self) {}
+}
+static LOGGER: StderrLog = StderrLog;
+
 fn main() {
+    if std::env::var("VERIF_LOG").is_ok() {
+        let _ = log::set_logger(&LOGGER);
+        log::set_max_level(log::LevelFilter::Trace);
+    }
     let args: Vec<String> = std::env::args().collect();
     let code = match args.get(1).map(|s| s.as_str()) {
         Some("smoke") => {
@@ -60,6 +77,7 @@ fn main() {
                 "C05" | "C13" | "C06" | "C14" | "C08" => c05::trace(&prop, t, idx, &choices, script, 20_000),
                 "C07" => c07::trace(t, idx, &choices, script, 20_000),
                 "C15" => c15::trace(t, idx, &choices, script, 20_000),
+                "C20" => c20::trace(t, idx, &choices, script, 60_000),
                 "C03" | "C04" | "C11" | "C12" | "C16" | "C17" => c03::trace(&prop, t, idx, &choices, script, 20_000),
                 _ => {
                     eprintln!("no trace support for {prop}");
@@ -90,6 +108,7 @@ fn main() {
                     "C05" | "C13" | "C06" | "C14" | "C08" => c05::trace(&prop, t, idx, &choices, None, max_polls),
                     "C07" => c07::trace(t, idx, &choices, None, max_polls),
                     "C15" => c15::trace(t, idx, &choices, None, max_polls),
+                    "C20" => c20::trace(t, idx, &choices, None, max_polls),
                     "C03" | "C04" | "C11" | "C12" | "C16" | "C17" => c03::trace(&prop, t, idx, &choices, None, max_polls),
                     _ => {
                         eprintln!("no simnet replay for {prop}");
@@ -137,6 +156,7 @@ fn main() {
                 Some("C04") => c03::run_c04(t),
                 Some("C07") => c07::run(t),
                 Some("C15") => c15::run(t),
+                Some("C20") => c20::run(t),
                 Some("C08") => c08::run(t),
                 Some("C11") => c11::run(t),
                 Some("C17") => c17::run(t),
